@@ -46,6 +46,8 @@ pub struct World {
     pub now: u128,      // U96F32 bits
     pub path_trace: bool,
     pub slave_only: bool,
+    pub own_p1: u8,
+    pub own_class: u8,
 }
 
 pub const CLOCKS: [[u8; 8]; 6] = [
@@ -237,6 +239,10 @@ pub struct Gen<'a> {
     pub frames: super::oracle_frames::FrameOracle,
     pub view: super::oracle_view::ViewOracle,
     pub tlvo: super::oracle_tlv::TlvOracle,
+    /// Some = the host obeys the timer actions (C12)
+    pub timed: Option<super::timed::Timed>,
+    pub last_obs: String,
+    pub last_op: String,
     pub ex: InstExec,
     pub out: &'a mut Out,
     pub w: World,
@@ -248,6 +254,12 @@ pub struct Gen<'a> {
 
 impl<'a> Gen<'a> {
     pub fn emit(&mut self, line: String) -> String {
+        if let Some(t) = &self.timed {
+            if t.blocked(&line) {
+                self.out.count("c12.unarmed-timer-not-fired");
+                return String::new();
+            }
+        }
         self.meas.note_op(&line);
         let parent_before = self.w.parent.clone();
         let obs = self.ex.exec(&line);
@@ -260,6 +272,9 @@ impl<'a> Gen<'a> {
             self.frames.check(self.out, &before, &line, &obs);
             self.view.check(self.out, &before, &line, &obs);
             self.tlvo.check(self.out, &before, &line, &obs);
+            if let Some(t) = self.timed.as_mut() {
+                t.absorb(self.out, &line, &obs);
+            }
         }
         let kind: String = {
             let ws: Vec<&str> = line.split_whitespace().collect();
@@ -279,6 +294,8 @@ impl<'a> Gen<'a> {
             self.out.count("result.output");
         }
         self.absorb(&line, &obs);
+        self.last_obs = obs.clone();
+        self.last_op = line.clone();
         self.out.op(&line, &obs);
         if self.ex.lock_nested > 0 {
             self.out.oracle("C17", "nested-lock", &format!("{line} -> lock trace {}", self.ex.last_lock_trace));
@@ -479,7 +496,7 @@ impl<'a> Gen<'a> {
             });
         }
         let start = *rng.pick(&[1_700_000_000u128 * SEC, 5 * SEC, 0, ((1u128 << 63) - 20_000_000_000) * F32, 1u128 << 79]);
-        self.w = World { own_clock: own, own_sdo: sdo, own_domain: domain, masters, ports: vec![], parent: String::new(), now: start, path_trace, slave_only };
+        self.w = World { own_clock: own, own_sdo: sdo, own_domain: domain, masters, ports: vec![], parent: String::new(), now: start, path_trace, slave_only, own_p1: p1, own_class: class };
         self.emit(line);
         let np = 1 + rng.below(3) as usize;
         for _ in 0..np {
@@ -1058,10 +1075,13 @@ pub fn new_gen(out: &mut Out) -> Gen<'_> {
         frames: Default::default(),
         view: Default::default(),
         tlvo: Default::default(),
+        timed: None,
+        last_obs: String::new(),
+        last_op: String::new(),
         meas: MeasOracle::default(),
         ex: InstExec::new(),
         out,
-        w: World { own_clock: [0; 8], own_sdo: 0, own_domain: 0, masters: vec![], ports: vec![], parent: String::new(), now: 0, path_trace: false, slave_only: false },
+        w: World { own_clock: [0; 8], own_sdo: 0, own_domain: 0, masters: vec![], ports: vec![], parent: String::new(), now: 0, path_trace: false, slave_only: false, own_p1: 0, own_class: 0 },
         ops_in_scenario: 0,
         dead: false,
         on_obs: None,
@@ -1433,6 +1453,237 @@ pub fn generate_tlv(out: &mut Out, rng: &Prng, thorough: bool) {
     }
 }
 
+impl<'a> Gen<'a> {
+    /// fire the timer that is due next (simulated time advances to its due time); false if none is armed
+    fn fire_next(&mut self) -> bool {
+        let Some((j, k, t)) = self.timed.as_ref().and_then(|t| t.next_due()) else { return false };
+        if let Some(tm) = self.timed.as_mut() {
+            if t > tm.now {
+                tm.now = t;
+            }
+        }
+        let kind = super::timed::KINDS[k];
+        let op = if kind == "ann" { format!("P{j} TMR ann 1") } else { format!("P{j} TMR {kind}") };
+        self.emit(op);
+        true
+    }
+
+    fn sim_now(&self) -> u128 {
+        self.timed.as_ref().map(|t| t.now).unwrap_or(0)
+    }
+
+    /// run the host for `span` ns of simulated time: due timers in order, BMCA every `bmca_every` ns, and (optionally)
+    /// a steadily announcing master on port `k`. Returns per port (announces, syncs, delay requests) emitted.
+    fn run_host(&mut self, rng: &Prng, span: u128, bmca_every: u128, master: Option<(usize, Master, u128)>, max_events: usize) -> (Vec<[u32; 3]>, bool) {
+        let np = self.w.ports.len();
+        let mut counts = vec![[0u32; 3]; np];
+        let t_end = self.sim_now() + span;
+        let mut next_bmca = self.sim_now() + bmca_every;
+        let mut next_ann = self.sim_now();
+        let mut m = master;
+        let mut events = 0;
+        loop {
+            if self.dead {
+                return (counts, false);
+            }
+            events += 1;
+            if events > max_events {
+                return (counts, false);
+            }
+            let due = self.timed.as_ref().and_then(|t| t.next_due()).map(|d| d.2).unwrap_or(u128::MAX);
+            let ann_t = if m.is_some() { next_ann } else { u128::MAX };
+            let t = due.min(next_bmca).min(ann_t);
+            if t > t_end {
+                if let Some(tm) = self.timed.as_mut() {
+                    tm.now = t_end;
+                }
+                return (counts, true);
+            }
+            let obs;
+            if t == ann_t {
+                let (k, ref mut mm, every) = m.as_mut().unwrap();
+                mm.seq = mm.seq.wrapping_add(1);
+                let mut f = self.base_frame(rng, 0xb, mm.clock, mm.port, mm.seq);
+                f.flags[1] = mm.flags1;
+                f.set_announce(&mm.ann);
+                if let Some(tm) = self.timed.as_mut() {
+                    tm.now = t;
+                }
+                next_ann = t + *every;
+                let k = *k;
+                obs = self.emit(format!("P{k} GEN {}", hex(&f.bytes())));
+            } else if t == next_bmca {
+                if let Some(tm) = self.timed.as_mut() {
+                    tm.now = t;
+                }
+                next_bmca = t + bmca_every;
+                let s: Vec<String> = (1..=np).map(|x| x.to_string()).collect();
+                obs = self.emit(format!("BMCA {}", s.join(",")));
+            } else {
+                let before = self.out.n_ops;
+                self.fire_next();
+                let _ = before;
+                obs = String::new();
+            }
+            let _ = obs;
+            // count what the last op emitted
+            let last = self.last_obs.clone();
+            for s in super::oracle_frames::sent_items(&last) {
+                if s.port >= 1 && s.port <= np && !s.bytes.is_empty() {
+                    match s.bytes[0] & 0x0f {
+                        0xb => counts[s.port - 1][0] += 1,
+                        0x0 => counts[s.port - 1][1] += 1,
+                        0x1 | 0x2 => counts[s.port - 1][2] += 1,
+                        _ => {}
+                    }
+                }
+            }
+        }
+    }
+}
+
+/// C12: the host obeys the timer actions. Random prefix (timers fire only when armed), then silence or a steady better master.
+pub fn generate_timed(out: &mut Out, rng: &Prng, thorough: bool) {
+    use super::timed::{log_ns, Timed};
+    let mut g = new_gen(out);
+    let scenarios = if thorough { 5000 } else { 350 };
+    for sc in 0..scenarios {
+        g.timed = Some(Timed { frac: rng.next_u64(), ..Default::default() });
+        g.start_scenario(rng);
+        let np = g.w.ports.len();
+        // prefix: arbitrary traffic; timers fire only when armed, in due order
+        let len = rng.below(if thorough { 120 } else { 60 }) as usize;
+        while !g.dead && g.ops_in_scenario < len + np + 1 {
+            if rng.chance(1, 3) {
+                if !g.fire_next() {
+                    g.step(rng);
+                }
+            } else {
+                g.step(rng);
+            }
+        }
+        if g.dead {
+            continue;
+        }
+        g.out.count("scenario");
+        if sc % 7 == 3 {
+            // directed: a P2P port that is Master with its receipt timer expired, hit by a peer-delay fault, then recovering
+            if let Some(k) = g.w.ports.iter().position(|p| p.p2p).map(|i| i + 1) {
+                for _ in 0..4 {
+                    if !g.dead && g.w.ports[k - 1].state != "Slave" {
+                        g.announce_burst(rng);
+                    }
+                }
+                if !g.dead && g.w.ports[k - 1].state == "Slave" {
+                    g.emit(format!("P{k} TMR rcpt"));
+                    let mut tries = 0;
+                    while !g.dead && tries < 30 && g.w.ports[k - 1].state != "Faulty" {
+                        g.pdelay_exchange(rng);
+                        tries += 1;
+                    }
+                    tries = 0;
+                    while !g.dead && tries < 30 && g.w.ports[k - 1].state == "Faulty" {
+                        g.pdelay_exchange(rng);
+                        tries += 1;
+                    }
+                    g.out.count("c12.directed-fault-recovery");
+                }
+            }
+            if g.dead {
+                continue;
+            }
+        }
+        let cfgs: Vec<super::timed::PortTiming> = g.timed.as_ref().unwrap().ports.clone();
+        if cfgs.len() != np {
+            continue;
+        }
+        let ann_ns: Vec<u128> = cfgs.iter().map(|c| log_ns(c.announce_log)).collect();
+        let bmca_every = *ann_ns.iter().min().unwrap();
+        let slow = cfgs.iter().any(|c| c.receipt_timeout > 10);
+        if sc % 2 == 0 {
+            // (a) the network falls silent
+            if slow {
+                g.out.count("c12.silence-skipped-long-timeout");
+                continue;
+            }
+            let bound = cfgs.iter().map(|c| log_ns(c.announce_log) * (2 * c.receipt_timeout as u128 + 6)).max().unwrap();
+            let (_, done) = g.run_host(rng, bound, bmca_every, None, 6000);
+            if !done || g.dead {
+                g.out.count("c12.silence-inconclusive");
+                continue;
+            }
+            g.out.count("c12.silence-runs");
+            let tainted: Vec<bool> = g.timed.as_ref().unwrap().ports.iter().map(|p| p.tainted).collect();
+            let states: Vec<String> = g.w.ports.iter().map(|p| p.state.clone()).collect();
+            let mut all_master = true;
+            for j in 0..np {
+                let may = !g.w.slave_only && states[j] != "Faulty" && !tainted[j];
+                if may && states[j] != "Master" {
+                    all_master = false;
+                    g.out.oracle("C12", "not-master-after-silence", &format!("{} -> port {} is {} after {} ns of silence (announce interval {} ns, receipt timeout {})", g.last_op, j + 1, states[j], bound, ann_ns[j], cfgs[j].receipt_timeout));
+                }
+            }
+            if all_master && !g.w.slave_only {
+                // from then on: Announce and Sync at their configured intervals
+                let window = ann_ns.iter().max().unwrap() * 4;
+                let (counts, done) = g.run_host(rng, window, bmca_every, None, 8000);
+                if done && !g.dead {
+                    for j in 0..np {
+                        if states[j] != "Master" || g.w.ports[j].state != "Master" {
+                            continue;
+                        }
+                        let want_a = (window / ann_ns[j]) as u32;
+                        let want_s = (window / log_ns(cfgs[j].sync_log)) as u32;
+                        g.out.count("c12.cadence-checked");
+                        if counts[j][0] + 1 < want_a || counts[j][0] > want_a + 1 {
+                            g.out.oracle("C12", "announce-cadence", &format!("{} -> Master port {} emitted {} Announces in {} ns (interval {} ns)", g.last_op, j + 1, counts[j][0], window, ann_ns[j]));
+                        }
+                        if counts[j][1] + 1 < want_s || counts[j][1] > want_s + 1 {
+                            g.out.oracle("C12", "sync-cadence", &format!("{} -> Master port {} emitted {} Syncs in {} ns (interval {} ns)", g.last_op, j + 1, counts[j][1], window, log_ns(cfgs[j].sync_log)));
+                        }
+                    }
+                }
+            }
+        } else {
+            // (b) a better master announces steadily on one port
+            let k = 1 + rng.below(np as u64) as usize;
+            let clock = [0x00, 0x00, 0x00, 0x00, 0x00, 0x00, 0x00, 0x00];
+            let ann = AnnounceFields { utc: 37, p1: 0, class: 0, acc: 0x20, var: 0, p2: 0, gm: clock, steps: 0, time_source: 0x20 };
+            let m = Master { clock, port: 1, ann, seq: rng.next_u64() as u16, sync_seq: 0, two_step: true, flags1: 0x08 };
+            let every = ann_ns[k - 1];
+            let span = every * 8 + bmca_every * 3;
+            let (_, done) = g.run_host(rng, span, bmca_every, Some((k, m.clone(), every)), 8000);
+            if !done || g.dead {
+                g.out.count("c12.master-inconclusive");
+                continue;
+            }
+            let pv = g.w.ports[k - 1].clone();
+            let acceptable = pv.acc.as_ref().map(|l| l.iter().any(|c| *c == clock_hex(&clock))).unwrap_or(true);
+            let tainted = g.timed.as_ref().unwrap().ports[k - 1].tainted;
+            // a clock of class 1..127 never becomes Slave (decision P1 instead): IEEE 1588-2019 figure 33
+            let class_now: u32 = g.last_obs.split(" | ").find(|p| p.starts_with("DF ")).and_then(|d| d.split_whitespace().nth(1)).and_then(|x| x.parse().ok()).unwrap_or(248);
+            let expect_slave = !pv.master_only && acceptable && g.w.own_p1 > 0 && pv.state != "Faulty" && !tainted && !(1..=127).contains(&class_now);
+            g.out.count("c12.master-runs");
+            if expect_slave && pv.state != "Slave" {
+                g.out.oracle("C12", "not-slave-of-steady-better-master", &format!("{} -> port {k} is {} after 8 announce intervals of a better master (priority1 0)", g.last_op, pv.state));
+            }
+            if pv.state == "Slave" {
+                let dns = log_ns(cfgs[k - 1].delay_log);
+                let window = dns * 8;
+                let (counts, done) = g.run_host(rng, window, bmca_every, Some((k, m, every)), 8000);
+                if done && !g.dead && g.w.ports[k - 1].state == "Slave" {
+                    g.out.count("c12.delay-cadence-checked");
+                    // RNG-scaled interval in [0, 2) × nominal: at least 2 requests in 8 nominal intervals
+                    if counts[k - 1][2] < 2 {
+                        g.out.oracle("C12", "delay-request-cadence", &format!("{} -> Slave port {k} emitted {} delay requests in {} ns (interval {} ns)", g.last_op, counts[k - 1][2], window, dns));
+                    }
+                }
+            }
+        }
+    }
+    g.timed = None;
+}
+
 /// C10: master-side stream. Sequence number wrap-around runs plus dense master traffic with edge timestamps.
 pub fn generate_master(out: &mut Out, rng: &Prng, thorough: bool) {
     let mut g = new_gen(out);
@@ -1498,10 +1749,13 @@ pub fn generate(out: &mut Out, rng: &Prng, thorough: bool) {
         frames: Default::default(),
         view: Default::default(),
         tlvo: Default::default(),
+        timed: None,
+        last_obs: String::new(),
+        last_op: String::new(),
         meas: MeasOracle::default(),
         ex: InstExec::new(),
         out,
-        w: World { own_clock: [0; 8], own_sdo: 0, own_domain: 0, masters: vec![], ports: vec![], parent: String::new(), now: 0, path_trace: false, slave_only: false },
+        w: World { own_clock: [0; 8], own_sdo: 0, own_domain: 0, masters: vec![], ports: vec![], parent: String::new(), now: 0, path_trace: false, slave_only: false, own_p1: 0, own_class: 0 },
         ops_in_scenario: 0,
         dead: false,
         on_obs: None,
